@@ -126,7 +126,7 @@ class Event:
 
 class Summary:
     def __init__(self):
-        self.mut: Dict[str, Tuple[str, tuple, bool]] = {}   # param -> (how, via chain, fuzzy) of one witness (an exact witness replaces a fuzzy one)
+        self.mut: Dict[str, Dict[Tuple[str, tuple], bool]] = {}   # param -> {(how, via chain): fuzzy}: one witness per distinct operation (an exact witness replaces a fuzzy one)
         self.ret_own: Set = set()      # param names / S origins the result may BE
         self.ret_reach: Set = set()    # ... may reach
         self.grow: Dict[str, Set] = {}  # param -> origins stored into it
@@ -136,7 +136,7 @@ class Summary:
         self.ret_typ = "unset"
 
     def snapshot(self):
-        return (tuple(sorted((k, v[2]) for k, v in self.mut.items())), tuple(sorted(map(repr, self.ret_own))), tuple(sorted(map(repr, self.ret_reach))),
+        return (tuple(sorted((k, tuple(sorted((h, f) for (h, _), f in v.items()))) for k, v in self.mut.items())), tuple(sorted(map(repr, self.ret_own))), tuple(sorted(map(repr, self.ret_reach))),
                 tuple(sorted((k, tuple(sorted(map(repr, v)))) for k, v in self.grow.items())), tuple(sorted((k, tuple(sorted(map(repr, v)))) for k, v in self.fieldmap.items())), tuple(sorted((k, tuple(sorted(v))) for k, v in self.p2f.items())), self.ret_kind, getattr(self.ret_typ, "qualname", self.ret_typ))
 
 
@@ -333,7 +333,7 @@ class FuncWalk:
         kind = "?"
         typ = None
         if idx == 0 and self.fi.cls is not None and self.fi.kind in ("method", "property", "setter"):
-            return Val({("P", name)}, E, "mut", self.fi.cls)
+            return Val({("P", name)}, E, "mut", self.fi.cls, {}, None)
         if idx == 0 and self.fi.cls is not None and self.fi.kind == "classmethod":
             return Val(E, E, "cls", self.fi.cls)
         if names:
@@ -634,9 +634,17 @@ class FuncWalk:
         fuzzy = fuzzy or self.fuzzy_now
         for o in target.own:
             if o[0] == "P":
-                old = self.summ.mut.get(o[1])
-                if old is None or (old[2] and not fuzzy):
-                    self.summ.mut[o[1]] = (how, tuple(via), fuzzy)
+                ws = self.summ.mut.setdefault(o[1], {})
+                # one witness per distinct operation text (shortest chain wins), at most 16 operations per parameter
+                same = [k for k in ws if k[0] == how]
+                if not same:
+                    if len(ws) < 16:
+                        ws[(how, tuple(via))] = fuzzy
+                else:
+                    k0 = same[0]
+                    if (ws[k0] and not fuzzy) or (ws[k0] == fuzzy and len(via) < len(k0[1])):
+                        del ws[k0]
+                        ws[(how, tuple(via))] = fuzzy
             if not self.consts:
                 self.eff.record(Event(self.fi, getattr(node, "lineno", 0), o, how, via, node=node, fuzzy=fuzzy))
 
@@ -848,8 +856,10 @@ class FuncWalk:
                     ftyp = ft if isinstance(ft, ClassInfo) else None
                     break
             # typed object: shared origins come field-sensitively from the global field store (or from the object being shared itself)
-            o2 = {o for o in base.reach if o[0] == "P"} | {o for o in base.own if o[0] == "S"} | extra
-            return Val(o2, o2, "?", ftyp)
+            # (parameter origins: only those the base itself IS — an object merely stored somewhere inside the base is not
+            # every one of its fields; stores made in this function are tracked through Val.fields)
+            o2 = set(base.own) | extra
+            return Val(o2, o2 | base.reach, "?", ftyp)
         if attr in NP_VIEW_METHODS and base.kind == "np":
             return Val(base.own, base.reach, "np")
         if base.kind == "imm":
@@ -1144,11 +1154,13 @@ class FuncWalk:
                     self.eff.ctx_summ[key] = Summary()
                     self.eff.ctx_funcs[key] = callee
                 s = self.eff.ctx_summ[key]
-        for p, (how, via, fz) in list(s.mut.items()):
+        for p, ws in list(s.mut.items()):
             v = bound.get(p)
             if v is None:
                 continue
-            self.mutate(v, n, how, (callee.qualname,) + tuple(via), fuzzy=fz)
+            for (how, via), fz in list(ws.items()):
+                if len(via) < 12:
+                    self.mutate(v, n, how, (callee.qualname,) + tuple(via), fuzzy=fz)
         for p, targets in list(s.p2f.items()):
             v = bound.get(p)
             if v is None:
